@@ -5,3 +5,10 @@ chk('C17', 'exploration',
     'so a wrong value for any registry-defined name is found; names no registry defines are out of reach.',
     'Trusts glibc elf.h and LLVM 14 BinaryFormat headers (vendored as JSON); accepts a value if either registry agrees.',
     'invariant walk over live tables + parse-path translation monitor vs vendored registries', 'DESIGN.md section 4 C17')
+chk('C16', 'exploration',
+    'Direct calls of the real primitive decoders on traced streams against the arithmetic definition of each encoding: '
+    'LEB128 prefixes enumerated exhaustively up to length 2 (quick) / 3 (thorough) in both signednesses with and without trailing bytes, '
+    '24-bit integers (all 2^24 per byte order in thorough), fixed-width integers, C strings around the 64-byte chunk, blocks, arrays, '
+    'initial-length classes and every truncation point. Exhaustive where the space is finite and small, sampled elsewhere.',
+    'Oracle = arithmetic definitions written from DWARF 5 sections 7.4/7.6 and the gABI; consumption judged by tell().',
+    'reference-model oracle over exhaustive/stratified encodings, traced stream consumption', 'DESIGN.md section 4 C16')
